@@ -204,6 +204,9 @@ DiagThorough == DiagQuick \cup {<<1, 1, 1, 1>>, <<1, 4, 2, 6>>, <<9, 7, 8, 6>>}
 (* two equal rows (determinant 0), p = 3/4 (JC69)                                             *)
 DiagBoundary == {<<1, 2, 1, 2>>, <<2, 1, 2, 1>>, <<0, 0, 1, 1>>, <<1, 1, 1, 1>>, <<2, 0, 0, 0>>, <<2, 2, 2, 2>>,
                  <<1, 3, 1, 3>>, <<3, 1, 3, 1>>}    \* the last two: 1 - 3/4 - 1/4 etc. round to a few ulp above 0 in floating point
+(* with three off-diagonal cells of weight 3 this profile holds the singular matrix          *)
+(* [[3,3,3,0],[0,1,0,0],[3,0,3,0],[0,0,0,1]] whose floating point determinant is not 0       *)
+DiagSingular == {<<3, 1, 3, 1>>}
 NCNone == {<<>>}
 NCSome == {<<>>, <<<<"N", "A">>, <<"C", "-">>, <<"R", "G">>, <<"-", "-">>, <<"T", "R">>, <<"N", "N">>>>}
 
